@@ -12,11 +12,20 @@ CLAIMED = {
         "note": ("trusted: cbmc 6.11.0; extraction rule classes; shared_ptr as sole-owner pointer; std::copy/fill/equal models "
                  "(each verified against its contract); induction over operation histories argued in DESIGN.md, not machine-checked"),
     },
+    "C09": {
+        "text": ("partial - border clause only: for every one of the 45 neighbourhood-bound sites in Quadratic/RelativeDifference/"
+                 "Logcosh priors the extracted bound expressions satisfy, for all ints (|.|<2^28): every visited offset d addresses "
+                 "a voxel inside the image and a weight inside the weights array, and every in-image neighbour inside the weights' "
+                 "support is visited (soundness + completeness; loop-free full-domain proof). Not decided: derivative relations, "
+                 "Hessian symmetry/PSD, scaling, PLSPrior."),
+        "note": ("trusted: cbmc 6.11.0; the loops over dz/dy/dx and the index triples [z+dz][y+dy][x+dx] are matched syntactically "
+                 "(counted static facts), not proved; operand renaming rules of props/c09.py"),
+    },
 }
 
 _PENDING = "claimed in DESIGN.md but the check is not built yet in this commit; will move to checks when it exists"
 NOT_APPLICABLE = {
-    "C01": _PENDING, "C02": _PENDING, "C03": _PENDING, "C06": _PENDING, "C08": _PENDING, "C09": _PENDING, "C10": _PENDING, "C20": _PENDING,
+    "C01": _PENDING, "C02": _PENDING, "C03": _PENDING, "C06": _PENDING, "C08": _PENDING, "C10": _PENDING, "C20": _PENDING,
     "C04": "linearity/adjointness/additivity are equalities up to floating-point reassociation between long accumulations through virtual projector classes; bit-precise CBMC cannot state 'up to rounding' compositionally nor close the Siddon/interpolation loops; no leaf contract decides it",
     "C05": "value/gradient/Hessian are float sums over all bins with log(), reached only through virtual objective-function/projector objects; CBMC's libm model leaves log unconstrained; element-wise kernels do not decide the textbook equality",
     "C07": "EM update is spread over array expressions, back projection and sensitivity caches behind virtual calls; monotonicity/count preservation are real-analysis facts that do not survive bit-precise float semantics; the schedule part of restartability is decided under C06",
